@@ -75,8 +75,17 @@ Definition config_eqb (a b : config) : bool :=
 
 Definition is_keyper (c : config) (a : addr) : bool := mem_addr a (c_keypers c).
 
-(* EnsureValid *)
+(* EnsureValid (after the repair: the threshold is compared as an unsigned number). The last
+   conjunct is not a test of the code: it records that a Go slice has fewer than 2^63
+   elements, so that `int(threshold)` of a valid config is the threshold itself. *)
 Definition ensure_valid (c : config) : bool :=
+  negb (Nat.eqb (length (c_keypers c)) 0) &&
+  negb (N.eqb (c_threshold c) 0) &&
+  negb (Z.of_nat (length (c_keypers c)) <? Z.of_N (c_threshold c)) &&
+  (Z.of_nat (length (c_keypers c)) <? two63).
+
+(* EnsureValid before the repair: `int(bc.Threshold) > len(bc.Keypers)` *)
+Definition legacy_ensure_valid (c : config) : bool :=
   negb (Nat.eqb (length (c_keypers c)) 0) &&
   negb (N.eqb (c_threshold c) 0) &&
   negb (Z.of_nat (length (c_keypers c)) <? int_of_u64 (c_threshold c)).
